@@ -26,6 +26,8 @@ type Violation struct {
 	Faults     []string          `json:"faults,omitempty"`
 }
 
+var cellGuards = map[*Val]*guardInfo{}
+
 var knownIDs = map[string]bool{} // ids of "known:" findings
 var probeID string               // when set: explore inside that finding's region
 
@@ -151,6 +153,42 @@ func vrtCall(fr *frame, fn *ssa.Function, args []Val) Val {
 		return nil
 	case "HeldLocks":
 		return int64(heldLocks())
+	case "Guard":
+		obj, _ := args[0].(Iface)
+		mu, _ := args[1].(Iface)
+		mp, ok := mu.v.(*Val)
+		if !ok || mp == nil {
+			unsupported("zzvrt.Guard: mutex must be a pointer to a sync.Mutex/RWMutex")
+		}
+		g := &guardInfo{mu: mp, name: strArg(args[2])}
+		switch x := obj.v.(type) {
+		case *Map:
+			if x != nil {
+				old := x.guard
+				logUndo(func() { x.guard = old })
+				x.guard = g
+			}
+		case *Val:
+			if x != nil {
+				old, had := cellGuards[x]
+				logUndo(func() {
+					if had {
+						cellGuards[x] = old
+					} else {
+						delete(cellGuards, x)
+					}
+				})
+				cellGuards[x] = g
+			}
+		default:
+			unsupported(fmt.Sprintf("zzvrt.Guard on %T", obj.v))
+		}
+		return nil
+	case "GuardViolations":
+		for _, g := range in.path.guardViol {
+			in.path.traces = append(in.path.traces, "GUARD "+g)
+		}
+		return int64(len(in.path.guardViol))
 	case "Symbolic":
 		return true
 	case "Faults":
@@ -245,7 +283,21 @@ func vrtAssert(fr *frame, c Val, msg string) {
 			return
 		}
 		// violated on this path for every value satisfying the path condition
-		recordViolation(msg, site, in.path.model)
+		m := in.path.model
+		if in.path.uncertain {
+			// the path condition itself was never shown satisfiable: ask now
+			res, mm := in.ex.cachedCheck(append([]*Term(nil), in.path.pc...), new(int))
+			switch res {
+			case "unsat":
+				panic(pathEnd{"infeasible", "path condition unsatisfiable"})
+			case "sat":
+				m = mm
+			default:
+				in.inconclusive = append(in.inconclusive, fmt.Sprintf("%s: assertion %q fails on a path whose feasibility the solver could not decide", site, msg))
+				panic(pathEnd{"undecided", msg})
+			}
+		}
+		recordViolation(msg, site, m)
 		panic(pathEnd{"violation", msg})
 	case *Term:
 		neg := mkNot(c)
